@@ -184,6 +184,31 @@ def callResults (readyClosed : Bool) : List Call → List Bool
   | [] => []
   | c :: rest => let (rc, err) := callStep readyClosed c; err :: callResults rc rest
 
+/-- the two channels the calls manipulate: `ready` (closed = stopped) and the quit channel `q` -/
+structure CallSt where
+  readyClosed : Bool
+  qClosed : Bool
+  deriving Repr, DecidableEq, Inhabited
+
+/-- NewUDPReceiver → init(): fresh `q`, `ready` closed -/
+def callInit : CallSt := ⟨true, false⟩
+
+/-- init(): `r.q = make(chan bool)` first, then `select { case <-r.ready: error; default: close(r.ready) }` -/
+def initStep (s : CallSt) : CallSt × Bool :=
+  if s.readyClosed then ({ s with qClosed := false }, true) else ({ readyClosed := true, qClosed := false }, false)
+
+/-- Start: `<-ready` succeeds iff closed → `ready = make`; Stop: close(q) (if open) … init() -/
+def callStep2 (s : CallSt) : Call → CallSt × Bool
+  | .start => if s.readyClosed then ({ s with readyClosed := false }, false) else (s, true)
+  | .stop => initStep { s with qClosed := true }
+
+def callRun2 (s : CallSt) : List Call → CallSt × List Bool
+  | [] => (s, [])
+  | c :: rest =>
+    let (s', err) := callStep2 s c
+    let (sf, errs) := callRun2 s' rest
+    (sf, err :: errs)
+
 /-- the specification: a receiver is started or stopped; Start on a started one and Stop on a
     stopped one report an error and change nothing -/
 def specResults (started : Bool) : List Call → List Bool
